@@ -12,7 +12,7 @@ static inline int diff_hexv(int c) { return c >= '0' && c <= '9' ? c - '0' : c >
 /* reads the next input; bytes live in an exact-size malloc block (so that ASan sees reads past the end). returns 0 at EOF */
 static inline int diff_next(FILE *f, diff_input *in)
 {
-  static char line[1 << 16];
+  static char line[1 << 19];
   if (!fgets(line, sizeof line, f)) return 0;
   size_t L = strlen(line); while (L && (line[L - 1] == '\n' || line[L - 1] == '\r')) line[--L] = 0;
   char *sp = strchr(line, ' ');
